@@ -80,48 +80,77 @@ class RowParallelLinear(torch.nn.Module):
         return y if self.bias is None else y + self.bias
 
 
+# model layouts: key -> (kind, in, out, registered name)
+MODELS = {
+    'simple': {'col': ('col', IN, HID, 'layers.0'),
+               'row': ('row', HID, OUT, 'layers.2')},
+    # GPT-NeoX style names keyed by the global pipeline index: the name of
+    # one layer is a suffix of another's ('2.mlp.up' / '12.mlp.up')
+    'deep': {'col': ('col', IN, HID, '2.mlp.up'),
+             'row': ('row', HID, IN, '2.mlp.down'),
+             'col2': ('col', IN, HID, '12.mlp.up'),
+             'row2': ('row', HID, OUT, '12.mlp.down')},
+}
+
+
+def layout(g: dict[str, Any]) -> dict[str, tuple]:
+    return MODELS[g.get('model', 'simple')]
+
+
+def kind_of(key: str) -> str:
+    return 'col' if key.startswith('col') else 'row'
+
+
 def full_params(seed: int, g: dict[str, Any]) -> dict[str, torch.Tensor | None]:
     gen = torch.Generator().manual_seed(4242 + seed)
-    out: dict[str, Any] = {
-        'col.weight': torch.randn(HID, IN, generator=gen) * 0.5,
-        'col.bias': torch.randn(HID, generator=gen) * 0.5,
-        'row.weight': torch.randn(OUT, HID, generator=gen) * 0.5,
-        'row.bias': torch.randn(OUT, generator=gen) * 0.5,
-    }
-    if not g.get('bias_col', True):
-        out['col.bias'] = None
-    if not g.get('bias_row', True):
-        out['row.bias'] = None
+    out: dict[str, Any] = {}
+    for key, (kind, nin, nout, _) in layout(g).items():
+        out[f'{key}.weight'] = torch.randn(nout, nin, generator=gen) * 0.5
+        has_b = g.get('bias_col', True) if kind == 'col' else \
+            g.get('bias_row', True)
+        out[f'{key}.bias'] = torch.randn(nout, generator=gen) * 0.5 \
+            if has_b else None
     return out
 
 
 def shard(name: str, t: torch.Tensor | None, m: int, M: int):
     if t is None:
         return None
-    if name == 'col.weight':
+    key, pn = name.split('.')
+    if kind_of(key) == 'col':
         return t.chunk(M, 0)[m]
-    if name == 'col.bias':
-        return t.chunk(M, 0)[m]
-    if name == 'row.weight':
+    if pn == 'weight':
         return t.chunk(M, 1)[m]
     return t
 
 
 def assemble(name: str, shards: list[torch.Tensor]) -> torch.Tensor:
-    if name in ('col.weight', 'col.bias'):
+    key, pn = name.split('.')
+    if kind_of(key) == 'col':
         return torch.cat(shards, 0)
-    if name == 'row.weight':
+    if pn == 'weight':
         return torch.cat(shards, 1)
     return shards[0]
 
 
-NAMES = {'col': 'layers.0', 'row': 'layers.2'}
+NAMES = {k: v[3] for k, v in MODELS['simple'].items()}   # simple model
 
 
-def make_full_layers(fp: dict[str, Any]) -> dict[str, torch.nn.Module]:
-    col = torch.nn.Linear(IN, HID, bias=fp['col.bias'] is not None)
-    row = torch.nn.Linear(HID, OUT, bias=fp['row.bias'] is not None)
-    return {NAMES['col']: col, NAMES['row']: row}
+def names_of(g: dict[str, Any]) -> dict[str, str]:
+    return {k: v[3] for k, v in layout(g).items()}
+
+
+def make_full_layers(fp: dict[str, Any], g: dict[str, Any] | None = None,
+                     ) -> dict[str, torch.nn.Module]:
+    out = {}
+    for key, (kind, nin, nout, name) in layout(g or {}).items():
+        out[name] = torch.nn.Linear(nin, nout,
+                                    bias=fp[f'{key}.bias'] is not None)
+    return out
+
+
+class Box(torch.nn.Module):
+    pass
 
 
 class GptRank:
@@ -149,12 +178,26 @@ class GptRank:
 
         mp = self.groups['mp']
         sp = {n: shard(n, t, self.m, self.M) for n, t in self.fp.items()}
-        self.col = ColumnParallelLinear(sp['col.weight'], sp['col.bias'], mp)
-        self.row = RowParallelLinear(sp['row.weight'], sp['row.bias'], mp)
-        seq = torch.nn.Sequential(self.col, kaisa.Act(), self.row)
+        self.klayers: dict[str, torch.nn.Module] = {}
+        for key, (kind, nin, nout, name) in layout(self.cfg.gpt).items():
+            cls = ColumnParallelLinear if kind == 'col' else RowParallelLinear
+            self.klayers[key] = cls(sp[f'{key}.weight'], sp[f'{key}.bias'], mp)
         topo = PipeModelDataParallelTopology(num_pp=1, num_mp=self.M,
                                              num_dp=self.D)
-        self.model = PipelineModule(layers=seq, topology=topo)
+        if self.cfg.gpt.get('model', 'simple') == 'simple':
+            self.col, self.row = self.klayers['col'], self.klayers['row']
+            seq = torch.nn.Sequential(self.col, kaisa.Act(), self.row)
+            self.model = PipelineModule(layers=seq, topology=topo)
+        else:
+            self.model = PipelineModule(topology=topo)
+            for key, (kind, nin, nout, name) in layout(self.cfg.gpt).items():
+                node = self.model
+                parts = name.split('.')
+                for seg in parts[:-1]:
+                    if seg not in dict(node.named_children()):
+                        node.add_module(seg, Box())
+                    node = getattr(node, seg)
+                node.add_module(parts[-1], self.klayers[key])
 
     def build_pre(self) -> Any:
         from kfac.gpt_neox.preconditioner import GPTNeoXKFACPreconditioner
@@ -180,7 +223,7 @@ class GptRank:
 
     def named_grads(self) -> dict[str, torch.Tensor]:
         out = {}
-        for ln, mod in (('col', self.col), ('row', self.row)):
+        for ln, mod in self.klayers.items():
             out[f'{ln}.weight'] = mod.weight.grad.detach().clone()
             if mod.bias is not None:
                 out[f'{ln}.bias'] = mod.bias.grad.detach().clone()
@@ -208,12 +251,15 @@ class GptRank:
                     caps.setdefault((pid, key, 'g', self.d, self.m),
                                     gout[0].detach().clone())
                 return h
-            for key, mod in (('col', self.col), ('row', self.row)):
+            for key, mod in self.klayers.items():
                 handles.append(mod.register_forward_pre_hook(fwd_hook(key)))
                 handles.append(mod.register_full_backward_hook(bwd_hook(key)))
-        h = self.col(x)
-        h = torch.tanh(h)
-        out = self.row(h)
+        out = x
+        keys = list(self.klayers)
+        for j, key in enumerate(keys):
+            out = self.klayers[key](out)
+            if j < len(keys) - 1:
+                out = torch.tanh(out)
         loss = ((out - y) ** 2).sum() / (2 * cfg.batch)
         loss.backward()
         for hd in handles:
@@ -346,16 +392,16 @@ def build_interp(cfg: kaisa.Config, seed: int, caps: dict) -> Interp:
     fp = full_params(seed, g)
     icfg = kaisa.Config(**{**cfg.to_json(), 'method': 'eigen',
                            'prediv': False})
-    interp = Interp(icfg, make_full_layers(fp))
+    interp = Interp(icfg, make_full_layers(fp, g))
     pids = sorted({k[0] for k in caps})
     for pid in pids:
         ent: dict[str, dict[str, list]] = {}
-        for key, lname in NAMES.items():
+        for key, lname in names_of(g).items():
             xs, gs = [], []
             for d in range(D):
                 if (pid, key, 'x', d, 0) not in caps:
                     continue
-                if key == 'col':
+                if kind_of(key) == 'col':
                     xs.append(caps[(pid, key, 'x', d, 0)])
                     if (pid, key, 'g', d, 0) in caps:
                         gs.append(torch.cat(
@@ -400,7 +446,8 @@ def compare(cfg: kaisa.Config, hist: list[dict[str, Any]],
         add('raise', 0, 'some rank did not finish')
         return {'mismatches': mism, 'stats': stats}
     interp = build_interp(cfg, seed, ex['caps'])
-    names = list(NAMES.items())
+    names = list(names_of(g).items())
+    NAMES_ = names_of(g)
     for i, rec in enumerate(hist):
         act, x, obs = rec['act'], rec['x'], rec['obs']
         outs = [ex['recs'][r][i] for r in range(W)]
@@ -439,7 +486,7 @@ def compare(cfg: kaisa.Config, hist: list[dict[str, Any]],
                             k, [outs[d * M + m]['grads'][k] for m in range(M)])
                         raw[f'{lname}.{pn}'] = assemble(
                             k, [outs[d * M + m]['pre_grads'][k] for m in range(M)])
-                        if k == 'row.bias':
+                        if kind_of(key) == 'row' and pn == 'bias':
                             for m in range(1, M):
                                 if not torch.equal(outs[d * M + m]['grads'][k],
                                                    outs[d * M]['grads'][k]):
@@ -470,11 +517,11 @@ def compare(cfg: kaisa.Config, hist: list[dict[str, Any]],
                 o = outs[r]
                 if cfg.gpt.get('ckpt_dir'):
                     continue
-                if o['sd_layers'] != sorted(NAMES.values()):
+                if o['sd_layers'] != sorted(NAMES_.values()):
                     add('save', i, f'rank {r}: state has layers '
                                    f'{o["sd_layers"]}')
                     continue
-                for lname in NAMES.values():
+                for lname in NAMES_.values():
                     invw = o['facts'][lname]['inv']
                     for kind in ('A', 'G'):
                         held = outs[invw]['facts'][lname][kind]
@@ -485,7 +532,7 @@ def compare(cfg: kaisa.Config, hist: list[dict[str, Any]],
                                 f'not the factor held by inverse worker {invw}')
         elif act == 'load':
             stats['loads'] += 1
-            for lname in NAMES.values():
+            for lname in NAMES_.values():
                 for r in range(W):
                     f = outs[r]['facts'][lname]
                     should = x['hasInv'] and f['inv'] == r
